@@ -232,7 +232,7 @@ Proof.
     + rewrite (in_basis_name c g h En). exact Hb.
 Qed.
 
-Lemma swap_midok P c N a b : P "SWAP" -> a <> b -> a < N -> b < N -> midok P c N (MG "SWAP" [a; b] [] [] 0).
+Lemma swap_midok (P : string -> Prop) c N a b : P "SWAP" -> a <> b -> a < N -> b < N -> midok P c N (MG "SWAP" [a; b] [] [] 0).
 Proof.
   intros HP Hab Ha Hb.
   assert (Hnd : NoDup [a; b]) by (constructor; [intros [E|[]]; auto|constructor; [intros []|constructor]]).
@@ -245,7 +245,7 @@ Proof.
 Qed.
 
 (* the gates of one routed piece, converted back: SWAPs and relocated copies of the routed gate, all on coupled pairs *)
-Lemma piece_midok P c tp N tbl i g o : P "SWAP" ->
+Lemma piece_midok (P : string -> Prop) c tp N tbl i g o : P "SWAP" ->
   nth_error tbl i = Some g -> midok P c N g -> handled_name (gname g) = true ->
   Route.route1 Route.fixed tp (Z.of_nat N) (toR i g) = Some o ->
   Forall (fun x => midok P c N x /\ coupled_gate (tk tp) N x = true) (map (fromR tbl) o).
